@@ -32,8 +32,22 @@ import (
 	"verif/internal/rng"
 )
 
+// watchdog: 10 s per blocking step; after three expiries in one run (a change that makes the selection
+// loop hang makes hundreds of cases hang) it shrinks to 1 s so that the run still ends in about a minute.
+var (
+	watchdogNs int64 = int64(10 * time.Second)
+	wdExpiries int64
+)
+
+func wd() time.Duration { return time.Duration(atomic.LoadInt64(&watchdogNs)) }
+
+func wdExpired() {
+	if atomic.AddInt64(&wdExpiries, 1) >= 3 {
+		atomic.StoreInt64(&watchdogNs, int64(time.Second))
+	}
+}
+
 const (
-	watchdog = 10 * time.Second
 	interval = 100 * time.Microsecond
 	// values that can be in flight between the harness and the end of one transportIDLoop
 	// iteration: event/script 3, NIC+relay 7, polling 3 (see the file comment); margin added.
@@ -278,13 +292,13 @@ func callWD(f func()) (panicked interface{}, blocked bool) {
 	select {
 	case p := <-done:
 		return p, false
-	case <-time.After(watchdog):
+	case <-time.After(wd()):
 		return nil, true
 	}
 }
 
 func waitUntil(cond func() bool) bool {
-	deadline := time.Now().Add(watchdog)
+	deadline := time.Now().Add(wd())
 	for i := 0; ; i++ {
 		if cond() {
 			return true
@@ -456,6 +470,9 @@ func runCase(ci *caseIn) (term string, observed interface{}, direct string) {
 	var evsT, outsT []string
 	var obs []string
 	fail := func(i int, what string) (string, interface{}, string) {
+		if strings.Contains(what, "(hang)") {
+			wdExpired()
+		}
 		return "", obs, fmt.Sprintf("event %d (%s): %s", i, ci.Evs[i].Op, what)
 	}
 	emit := func(e, o string) {
@@ -516,7 +533,7 @@ func runCase(ci *caseIn) (term string, observed interface{}, direct string) {
 				for k := 0; k < flushEvent; k++ {
 					select {
 					case evCh <- tid(e.ID):
-					case <-time.After(watchdog):
+					case <-time.After(wd()):
 						return fail(i, "scheduler channel not drained (hang)")
 					}
 				}
@@ -531,7 +548,7 @@ func runCase(ci *caseIn) (term string, observed interface{}, direct string) {
 			for k := 0; k < flushNic; k++ {
 				select {
 				case nicCh <- fmt.Sprintf("nic%d", e.ID):
-				case <-time.After(watchdog):
+				case <-time.After(wd()):
 					return fail(i, "NIC channel not drained (hang)")
 				}
 			}
